@@ -108,5 +108,5 @@ def run(tier, seed, replay=None):
     rep.assumptions = ["the executor is represented by explicit poll labels on the hook scheduler (any task may be polled at any time); "
                        "the real LocalPool / ThreadPool only choose among these polls",
                        "virtual timer installed through NEW_TIMER_FN (the crate is built without the `timer` feature); the real timer is run "
-                       "separately (harness_rt, feature on) on 18 delays from 0 to beyond 2^64 microseconds: never ready early"]
+                       "separately (harness_rt, feature on) on 44 cases (timer, interval, delay, delay_subscription x 11 delays) from 0 to beyond 2^64 microseconds: never ready early"]
     return rep.finish()
